@@ -282,8 +282,15 @@ def shape_of(viol):
 
 
 def known_match(viol, known):
+    """
+    Structural match: the violation class must be one the entry lists (the
+    class carries the per-secret detail, e.g. [plaintext-begins-with-
+    marker]) and any extra shape keys must agree.  Never by seed.
+    """
     shape = shape_of(viol)
     for entry in known:
+        if viol["class"] not in entry.get("classes", []):
+            continue
         want = entry.get("shape", {})
         if all(shape.get(k) == v for k, v in want.items()):
             return entry
@@ -430,6 +437,13 @@ def main():
         text = "\n".join("%d %s" % d for d in sorted(digests))
         print("BATCH-DIGEST %s" % hashlib.sha256(text.encode()).hexdigest())
         sys.exit(0)
+    def reproduces(path):
+        with open(path, encoding="utf-8") as fhnd:
+            payload = json.load(fhnd)
+        res = driver.execute(payload["recipe"])
+        return payload["violation_class"] in judge(payload["recipe"], res)[0]
+
+    regressed = driver.run_regressions(PROP, reproduces)
     known = driver.known_for(PROP)
     reported = {}
     known_hits = {}
@@ -445,6 +459,11 @@ def main():
         print("KNOWN-FINDING: property=%s %s" % (PROP, entry["what"]))
     exit_code = 0
     replay_paths = []
+    for path in regressed:
+        print("VIOLATION property=%s replay=%s" % (PROP, path))
+        print("  a defect recorded as fixed in known_findings.json is back")
+        replay_paths.append(path)
+        exit_code = 1
     for viol in reported.values():
         path, payload = write_violation(viol)
         replay_paths.append(path)
@@ -487,6 +506,8 @@ def main():
             "components": driver.REAL_AND_STUB,
             "repo": driver.repo_state(),
             "known_findings_matched": sorted(known_hits),
+            "regression_replays_run": len(driver.regression_files(PROP)),
+            "regression_replays_reproduced": len(regressed),
             "replays": replay_paths,
         }
         driver.write_evidence(
@@ -498,7 +519,7 @@ def main():
              "pipe protocol strips it)",
              "which values are 'encrypted' is decided by this check's own "
              "walk of the loaded document, not by EYAMLProcessor"],
-            wall, len(reported))
+            wall, len(reported) + len(regressed))
     sys.exit(exit_code)
 
 
